@@ -44,6 +44,8 @@ func init() {
 			{ID: "R07s", Floor: 2, Doc: "index-backed lookups accept sections exactly as long as their CID (empty blocks), like the scan does (= R01r)", Run: ruleR01r},
 			{ID: "R07t", Floor: 1, Doc: "both front-ends run under the options the caller gave: no constructor switches StoreIdentityCIDs for itself (= R04j)", Run: ruleR04j},
 			{ID: "R07u", Floor: 1, Doc: "lookups answer from the archive, not from what an earlier call left in the object (= R08o)", Run: ruleR08o},
+			{ID: "R07v", Floor: 1, Doc: "an empty block is found by the index-backed lookups as it is by the scan (= R18u)", Run: ruleR18u},
+			{ID: "R07w", Floor: 7, Doc: "HeaderSize is the size of the encoding WriteHeader produces — the listing seeks by it (= R01c)", Run: ruleR01c},
 		},
 	})
 }
